@@ -79,6 +79,9 @@ pub struct WorldI {
     /// `is_open` reports only whether the connection is open (not upgraded); readiness is then visible
     /// through `poll_ready` alone, as the `PoolableConnection` / `Connection` traits allow.
     pub lax_open: bool,
+    /// `poll_ready` reports readiness (not busy) even when the connection has been closed or upgraded; liveness is
+    /// then visible through `is_open` alone (the crate's own mock connection behaves like this).
+    pub lax_ready: bool,
 }
 
 #[derive(Clone, Default)]
@@ -281,13 +284,14 @@ impl Connection<B> for VConn {
 
     fn poll_ready(&mut self, cx: &mut Context<'_>) -> Poll<Result<(), VConnErr>> {
         let mut w = self.world.0.lock().unwrap();
+        let lax_ready = w.lax_ready;
         let c = w.conns.get_mut(&self.id).unwrap();
         if !c.grant {
             c.waker = Some(cx.waker().clone());
             c.parked = true;
             return Poll::Pending;
         }
-        if !c.open || c.upgraded {
+        if (!c.open || c.upgraded) && !lax_ready {
             c.parked = false;
             return Poll::Ready(Err(VConnErr));
         }
@@ -419,6 +423,8 @@ impl PollRes {
 pub struct PoolCfg {
     /// connection double: is_open ignores the busy flag
     pub lax_open: bool,
+    /// connection double: poll_ready ignores closed / upgraded
+    pub lax_ready: bool,
     pub cap: bool,
     pub max_idle: usize,
     /// 0 = None, 1 = Some(0), 2 = small (40 ms), 3 = large (100 s)
@@ -481,6 +487,7 @@ impl Sim {
         {
             let mut w = world.0.lock().unwrap();
             w.lax_open = cfg.lax_open;
+            w.lax_ready = cfg.lax_ready;
             for (i, u) in uris.iter().enumerate() {
                 let uri: http::Uri = u.parse().unwrap();
                 w.origin_of_uri.insert(origin_key(&uri), i + 1);
